@@ -225,7 +225,7 @@ def cases(rng, tier, seed):
                                 observe_fir(cfg), 'fir/plan/' + cfg['kind'], cmp=cmp_plan, meta=meta))
             # ---- the public filtfilt wrapper with a random (b, a): DC restoration
             if method in ('fir', 'iir'):
-                b = nr.uniform(-1, 1, rng.randint(2, 6))
+                b = nr.uniform(-1, 1, rng.randint(2, max(2, min(6, (cfg['n'] - 1) // 3))))   # filtfilt needs n > 3*len(b)
                 a = np.array([1.0]) if method == 'fir' else np.array([1.0, nr.uniform(-0.6, 0.6)])
                 Tn = mk_series(cfg)
                 r2 = common.call(lambda: FA(Tn).filtfilt(b, a))
